@@ -12,6 +12,7 @@ state (context stack depth, wip flags, todo lists) are recorded as suspects in t
 verdict always comes from the behaviour.
 """
 from vp import plugins, realbooks, wb, wbgen
+from vp.core import h64
 
 PROP = 'C09'
 LEVEL = 'fault_enumeration'
@@ -25,7 +26,8 @@ BUDGET = {'quick': 30, 'thorough': 300}
 FLOORS = {
     'quick': {'cases': 600, 'faults_raised': 500, 'retries': 800, 'unrelated_compares': 1500,
               'second_failures': 150, 'repairs': 400, 'repair_compares': 3000, 'mode:plain': 200,
-              'mode:iterative': 200, 'kind:nosuch': 150, 'kind:failk-always': 150, 'kind:failk-once': 100,
+              'mode:iterative': 200, 'kind:nosuch': 150, 'kind:failk-always': 150, 'kind:failk-once': 100, 'kind:failname': 100,
+              'kind:nosuch-keyword': 100,
               'pos:leaf': 50, 'pos:mid-chain': 50, 'pos:in-range': 50, 'pos:cse': 10, 'pos:cycle': 20,
               'first:probe': 100, 'h2_events': 5000, 'real_book_cases': 30, 'real_faults_raised': 30},
     'thorough': {'cases': 12000, 'second_failures': 3000, 'pos:cse': 200, 'pos:cycle': 500},
@@ -96,6 +98,10 @@ def wrap(formula, kind, tag):
     body = formula[1:]
     if kind == 'nosuch':
         return f'=NOSUCH({body})'
+    if kind == 'nosuch-keyword':
+        return f'=LAMBDA({body})'          # an unknown function whose name python cannot even parse as a call
+    if kind == 'failname':
+        return f'=FAILNAME({body})'        # a plugin that fails with a NameError of its own
     if kind == 'failk-always':
         return f'=FAILK("{tag}",0,{body})'
     return f'=FAILK("{tag}",1,{body})'
@@ -306,7 +312,9 @@ def one_case(ctx, plan, mode, first, case_extra=None):
                 return
 
     # repair with constants
-    const_f, const_g = 3, 4
+    # (zero, too: writing 0 over a cell that never had a value is a change)
+    const_f, const_g = ((3, 4), (0, 4), (0.0, 0), (7, 0))[h64((plan['F'], kind, mode, first, len(plan['related']))) % 4]
+    ctx.count(f'repair_constant:{const_f!r}')
     targets = plan['f_cells'] + ([plan['G']] if plan['G'] else [])
     for a in targets:
         if a not in comp.cell_map:
@@ -512,7 +520,7 @@ def _unbounded_one(ctx, mode, kind, single):
 
 def run(ctx):
     rng = ctx.rng
-    kinds = ['nosuch', 'failk-always', 'failk-once']
+    kinds = ['nosuch', 'failk-always', 'failk-once', 'nosuch-keyword', 'failname']
     if ctx.shard == 0:
         unbounded_case(ctx)
     # faults injected into the workbooks shipped with the repository
@@ -528,7 +536,7 @@ def run(ctx):
         if any(o[0] == 'x' for o in wb.fresh_values(spec).values()):
             ctx.count('skipped_workbooks_with_failing_cells')
             continue
-        kind = kinds[i % 3]
+        kind = kinds[i % len(kinds)]
         plan = plan_case(rng, spec, meta, kind)
         if plan is None:
             continue
